@@ -175,7 +175,8 @@ func convertSchema(s string, t *VirtualTable) error {
 		if i > 0 {
 			s += ", "
 		}
-		s += c.Name
+		// quoted, so that names with spaces and keywords are declared as given
+		s += `"` + strings.ReplaceAll(c.Name, `"`, `""`) + `"`
 		if c.DefaultType != "" {
 			s += " " + c.DefaultType
 		}
